@@ -365,6 +365,8 @@ def run_case(case, rec):
         annotator.extract_base_interactions(s3, 1)
     except Exception:
         pass
+    # the tool's table of inter-stem parameters: the torsion column holds the library's values (degrees, (-180, 180])
+    _inter_stem_csv(case, rec, path)
     # table-level implementation
     with open(path) as f:
         df = parser_v2.parse_cif_atoms(f) if case["file"].endswith(".cif") else parser_v2.parse_pdb_atoms(f)
@@ -383,6 +385,55 @@ def run_case(case, rec):
     # residue in the middle of a chain has lost its base (no chi may be reported for it)
     if os.path.getsize(path) < 260_000:
         _table_checks(case, rec, s3)
+
+
+def _inter_stem_csv(case, rec, path):
+    import contextlib
+    import csv
+    import io
+    import sys
+
+    from rnapolis import annotator, parser
+    from vmon import emit
+
+    if os.path.getsize(path) > 600_000:
+        return
+    try:
+        with open(path) as f:
+            s2d = annotator.extract_secondary_structure(parser.read_3d_structure(f, None), None)[0]
+    except Exception:
+        return
+    want = [(p.stem1_idx, p.stem2_idx, float(p.torsion)) for p in (s2d.interStemParameters or [])]
+    if not want:
+        return
+    out = emit.scratch_path(".csv")
+    if os.path.exists(out):
+        os.remove(out)
+    old = sys.argv
+    _cur["ctx"] = "annotator CLI --inter-stem-csv"
+    try:
+        sys.argv = ["annotator", "--inter-stem-csv", out, path]
+        buf = io.StringIO()
+        try:
+            with contextlib.redirect_stdout(buf), contextlib.redirect_stderr(buf):
+                annotator.main()
+        except SystemExit:
+            pass
+        except Exception as e:
+            rec.violation("cli.inter-stem-torsions-are-the-library's", {"file": case["file"], "exception": repr(e)[:200]}, mechanism=f"crash:{type(e).__name__}")
+            return
+    finally:
+        sys.argv = old
+    try:
+        with open(out) as fh:
+            rows = list(csv.DictReader(fh))
+        got = [(int(r["stem1_idx"]), int(r["stem2_idx"]), float(r["torsion"])) for r in rows]
+    except Exception as e:
+        rec.violation("cli.inter-stem-torsions-are-the-library's", {"file": case["file"], "problem": "table not written or not readable", "exception": repr(e)[:200]}, mechanism="table-unreadable")
+        return
+    bad = [(w, g) for w, g in zip(want, got) if w[:2] != g[:2] or abs(w[2] - g[2]) > 1e-6 or not (-180.0 < g[2] <= 180.0)]
+    rec.check("cli.inter-stem-torsions-are-the-library's", len(want) == len(got) and not bad,
+              lambda: {"file": case["file"], "rows": [len(want), len(got)], "first-difference": bad[:2]})
 
 
 def _ref_by_residue(rows):
